@@ -71,6 +71,10 @@ def main(tier, seed):
         if i % 2 == 1:
             tooltier.add_traits(prog, rng, b)
             emit_rust.assign_abi_names(prog)
+        if i % 2 == 0 and tooltier.profiles.support(b)["namespacing"]:
+            # types spread over several namespaces with cyclic references between them: headers then forward-declare / include across namespaces
+            tooltier.reference_graph_features(prog, rng, keyword_fields=False, renames=False, namespaces=True)
+            emit_rust.assign_abi_names(prog)
         cfg = tooltier.STD_CONFIG[b]
         d = toolrun.fresh_dir(toolrun.workdir("c14", "p%d_%s" % (i, b)))
 
@@ -179,7 +183,7 @@ def main(tier, seed):
                            "base_dir": toolrun.workdir("c14", "p%d_%s" % (i, b))})
     chk.evaluations = stats["tool_runs"]
     chk.distinct = comparisons
-    chk.rule = ("programs with 10-20 types split over two bridge modules (two thirds of them decorated with backend-conditional rename/disable attributes and abi_rename patterns at module, type, impl and method level; half of them with traits and `impl Trait` parameters where the backend supports traits), per backend: base run vs (1) repeat runs in fresh processes, (2) random "
+    chk.rule = ("programs with 10-20 types split over two bridge modules (two thirds of them decorated with backend-conditional rename/disable attributes and abi_rename patterns at module, type, impl and method level; half of them with traits and `impl Trait` parameters where the backend supports traits, the other half spread over nested namespaces with cyclic references where the backend supports namespacing), per backend: base run vs (1) repeat runs in fresh processes, (2) random "
                 "permutations of module order and item order, (3) insertion of three unrelated types (opaque with callback / write methods, struct, enum with a callback method; sorted first or last, in an existing or a new last module) (per-type files of all other types must be "
                 "byte-identical; aggregate index files exempt), (4) extra non-bridge items incl. a same-named struct in a non-bridge module. "
                 "distinct_nontrivial = distinct (backend, program, comparison kind) triples actually compared.")
